@@ -14,7 +14,7 @@ import pickle
 from vp import core
 from vp.worker import run_segment
 
-FORMS = ["from_import", "import_as", "from_pkg_import_mod", "reexport_via_root", "local_import_full"]
+FORMS = ["from_import", "import_as", "from_pkg_import_mod", "reexport_via_root", "local_import_full", "import_full", "ns_import_full", "ns_from_pkg_import_mod", "ns_from_import"]
 EDITS = ["leaf_const", "leaf_var", "na_const", "na_var"]
 
 
@@ -22,8 +22,12 @@ def files_for(R, depth, form, leaf_const=7, leaf_var=3, na_const=5, na_var=1):
     comps = [R] + ["s%d" % i for i in range(1, depth)] + ["leaf"]
     leafmod = ".".join(comps)
     files = {}
+    namespace = form.startswith("ns_")  # PEP 420 namespace packages: directories without __init__.py
+    if namespace:
+        form = form[3:]
     for i in range(1, len(comps)):
-        files["/".join(comps[:i]) + "/__init__.py"] = "# pkg\n"
+        if not namespace:
+            files["/".join(comps[:i]) + "/__init__.py"] = "# pkg\n"
     files["/".join(comps) + ".py"] = (
         "from vp import vlog\n\nLV = %d\n\n\ndef leaf_fn():\n    vlog.hit('leaf_fn')\n    return ('leaf', %d, LV)\n" % (leaf_var, leaf_const)
     )
@@ -36,6 +40,8 @@ def files_for(R, depth, form, leaf_const=7, leaf_var=3, na_const=5, na_var=1):
         # the root package (accepted or not) re-exports the function; the caller reaches it through the root
         files[R + "/__init__.py"] = "# pkg\nfrom %s import leaf_fn\n" % leafmod
         imp, call = "import %s as rootpkg" % R, "rootpkg.leaf_fn()"
+    elif form == "import_full":
+        imp, call = "import %s" % leafmod, "%s.leaf_fn()" % leafmod
     elif form == "local_import_full":
         # the module is imported inside the body of the caller and used by its full dotted name (nothing binds the root
         # package at module level)
